@@ -13,8 +13,12 @@
      every message of the CONNACK retransmission loop, from the harness when the transport is
      unblocked);
    * on_publish / _set_as_published of a QoS 0 message happen when its PUBLISH is WRITTEN;
-   * reconnect() marks queued QoS 0 PUBLISH packets as lost ([InfoLost], [Published]) and then drops
-     the whole queue, whatever it contains;
+   * reconnect() drains the queue packet by packet: a queued QoS 0 PUBLISH that carries an info is
+     reported lost ([InfoLost], [Published]), every other packet is dropped silently, whatever it is;
+     CONNECT is then queued (at the FRONT of the queue, which is empty at that point in the modelled
+     single-threaded mode) and written at once, the new socket accepting writes;
+   * publish(qos=0) leaves info.rc at MQTT_ERR_SUCCESS when the hand-over succeeded (it is only
+     assigned on failure), so a later reconnect() can still turn it into MQTT_ERR_CONN_LOST;
    * a lost connection leaves the queue alone; ack() appends its reply even without a socket.
    Mode modelled: no network thread, no on_socket_register_write callback, API calls are not made
    from inside callbacks.  A blocked transport accepts nothing (no partial writes: that is C06's).
@@ -284,7 +288,8 @@ Definition do_publish (c : cfg) (s : sess) (q : Z) : sess * list event :=
     (with_out s1 (out s ++ [mkO mid q MsQueued false tag]) (inflight s), [Ret tag mid q 0]).
 
 (* ---- reconnect() ---- *)
-(* the loop over _out_packet: a queued QoS 0 PUBLISH that carries an info is reported lost *)
+(* the drain loop over _out_packet (popleft until empty): a queued QoS 0 PUBLISH that carries an info is
+   reported lost, in queue order; nothing else happens to the packets, and none survives *)
 Definition lost_evs (x : qpkt) : list event :=
   match q_pkt x with
   | PPublish _ q _ tag => if (q =? 0) && q_info x then [InfoLost tag; Published tag] else []
